@@ -128,10 +128,12 @@ Fine(a) ==
                   opts |-> Opts0, tag |-> <<"zero", a[1], a[2], z, a[3]>>] : z \in {"all", "row1", "col1", "nullidx", "nullrow"}}
       [] Family = "C06" ->
            \* class masks on r x c blocks, NULL present or absent, policy strict / none, wrapped or not
-           {[text |-> VBlock(a[6], "SPACE") \o (IF a[5] THEN WBlock("null1") ELSE <<T("W"), It("WELL", "w1")>>) \o CBlock(a[2])
+           {[text |-> VBlock(a[6], "SPACE") \o (IF a[5] THEN WBlock("null1") ELSE <<T("W"), It("WELL", "w1")>>)
+                      \* (unwrapped: also one curve declared fewer than there are columns -- the NULL rule holds for surplus columns too)
+                      \o CBlock(IF a[6] = "NO" /\ Len(pb) = 0 /\ a[3] = 0 THEN a[2] - under ELSE a[2])
                       \o pb \o ABlock(a[1], a[2], NoDeco(a[1]), LAMBDA i, j : IF j = a[3] THEN "TEXT" ELSE m[i][j]),
-             opts |-> [null_policy |-> a[4], ihe |-> FALSE], tag |-> <<"mask", a, Len(pb)>>] :
-                m \in [1..a[1] -> [1..a[2] -> Classes]],
+             opts |-> [null_policy |-> a[4], ihe |-> FALSE], tag |-> <<"mask", a, Len(pb), under>>] :
+                m \in [1..a[1] -> [1..a[2] -> Classes]], under \in {0, 1},
                 pb \in {<<>>, PBlock(1, <<It("NULL", "null2")>>)}}        \* a parameter that happens to be called NULL steers nothing
       [] Family = "C19" ->
            {[text |-> InsertJ(C19Base, a[1], j), opts |-> [null_policy |-> "strict", ihe |-> f], tag |-> <<"junk1", a[1], j>>] :
